@@ -2,30 +2,45 @@
 
 State corpus
   * every state of the history search (Engine H) on universe G1 / G2 to depth
-    3 (quick: depth 2 on G1/G2 plus depth 3 on the core universes),
+    3 (quick tier: depth 2), rebuilt by replay,
   * one document per record type x tag datatype (the C19 corpus: every record
     type with its references resolved, each tag datatype alone and all
-    together) at validation levels 0, 1, 3 (thorough: 0..3),
-  * vlevel-0 documents whose lazily decoded fields are spelled in a
-    non-canonical but valid way (own clause, see below),
-  * stand-alone alignment / position values.
+    together), multi-valued headers, documents with dangling references
+    (virtual lines), at validation levels 0, 1, 3 (quick: 0, 1),
+  * vlevel-0 documents whose lazily decoded fields are spelled in a valid but
+    non-canonical way (own clause text-normalised-on-read, see below),
+  * stand-alone alignment / position / oriented values (check_values).
 Query menu: every public read-only call on the Gfa, on each line and on each
 alignment / position / oriented-identifier value (tables below, written by
 hand from the API documentation; mutators are left out, and so are the two
 documented exceptions: to_gfa2* of an unnamed connected L/C assigns an ID, and
-unused_name() advances a counter).
+unused_name() advances a counter).  Iterating a Placeholder (list(p)) is left
+out because it does not terminate (C07's domain).
 
 Oracle
   frame       deep observation (purity.deep_obs) identical before and after
-              every (state, query) -- the query is asked twice in a row
+              every (state, query) -- each query is asked twice in a row; the
+              observation is taken after every 16 (thorough: 4) queries and a
+              difference is located by re-running that chunk on a fresh
+              replica with an observation after every query
   twice       canonical result of q asked twice is identical
   argument    arguments handed to q are unchanged by q
-  pair        for every ordered pair (q1, q2) of the reduced menu (one
-              instance per query kind and record type): result of q2 after q1
-              == result of q2 on a fresh replica of the state
-  sequence    result of q at its place in the whole menu run on one replica
-              == result of q on a fresh replica; deep observation unchanged
-              at the end of every sequence
+  sequence    the whole menu is run forwards on one replica and backwards on
+              another: the answer of every query is the same in both orders
+              (so every ordered pair of the FULL menu occurs in one tested
+              sequence); a difference is located with fresh replicas and
+              reported as a pair if one earlier query suffices
+  pair        isolated ordered pairs against fresh replicas: result of q2
+              after q1 == result of q2 asked first on a fresh replica.
+              Pair menu = one representative per query family x the same
+              (quick); thorough adds q1 = one instance of EVERY query kind
+              (record kind x operation x field datatype) against the
+              families of the same receiver, the Gfa-level probes and str()
+              of every other line
+  sequence-frame  deep observation unchanged at the end of every sequence
+  text-normalised-on-read  (lazy non-canonical corpus only) a frame violation
+              whose new text is exactly the text the same document has when
+              parsed eagerly at vlevel 1
 Exceptions raised by a query are outcomes (they must be the same both times).
 """
 import json
@@ -97,7 +112,7 @@ LAZY_DOCS = [
 
 
 def doc_items(quick):
-  vlevels = (0, 1) if quick else (0, 1, 2, 3)
+  vlevels = (0, 1) if quick else (0, 1, 3)
   items = []
   nt = len(corpus19.TAGS)
   tagsets = [()] + [(i,) for i in range(nt)] + [tuple(range(nt))]
@@ -105,7 +120,8 @@ def doc_items(quick):
     for ts in tagsets:
       if t[2].startswith("#") and ts:
         continue
-      for vl in (vlevels if len(ts) < nt else (0, 1, 3) if quick else vlevels):
+      for vl in (vlevels if len(ts) < nt else (0, 1, 3) if quick else
+                 (0, 1, 2, 3)):
         lines = list(t[3]) + [corpus19.line_text(t[0], ts)]
         items.append({"kind": "doc", "name": t[0], "version": t[1],
                       "vlevel": vl, "lines": lines})
@@ -170,6 +186,7 @@ GFA_CALLS = [("validate", []), ("connected_components", []),
 
 LINE_ATTRS = ["record_type", "version", "dialect", "virtual", "vlevel",
               "positional_fieldnames", "tagnames", "all_references", "gfa"]
+META_ATTRS = ("record_type", "version", "dialect", "virtual", "vlevel")
 LINE_CALLS = [("is_connected", []), ("to_list", []),
               ("to_list", [["lit", False]]), ("to_str", []),
               ("to_str", [["lit", False]]), ("refstr", []), ("clone", []),
@@ -269,7 +286,9 @@ def make_menu(g, tab, item):
   G = ["g"]
   add("g.str", G, ["str"])
   for a in GFA_ATTRS:
-    add("g." + a, G, ["attr", a])
+    add("g." + a, G, ["attr", a],
+        "g.meta" if a in ("version", "vlevel", "dialect",
+                          "n_input_header_lines") else None)
   for name, args in GFA_CALLS:
     add("g.{}({})".format(name, len(args)), G, ["call", name, args])
   gfa1 = g.version == "gfa1"
@@ -333,7 +352,7 @@ def make_menu(g, tab, item):
     add(P + "repr", R, ["repr"])
     add(P + "hash", R, ["hash"])
     for a in LINE_ATTRS:
-      add(P + a, R, ["attr", a])
+      add(P + a, R, ["attr", a], P + "meta" if a in META_ATTRS else None)
     for name, args in LINE_CALLS:
       add(P + "{}({})".format(name, len(args)), R, ["call", name, args])
     add(P + "to_gfa1_s", R, ["call", "to_gfa1_s", []])
@@ -581,6 +600,8 @@ g.connected_components(0) g.linear_paths(0) g.to_gfa1_s g.to_gfa2_s
 g.line(name) g.segment(name) g.select(name)
 g.segment_connected_component(name) g.linear_path(name) g.is_cut_segment(name)
 g.is_cut_link(L) g.is_cut_link(E)""".split())
+G_PROBES = set("""g.str g.validate(0) g.connected_components(0)
+g.linear_paths(0) g.to_gfa1_s g.to_gfa2_s""".split())
 # one representative per record kind
 LINE_FAM = set("""str clone(0) validate(0)
 dovetails neighbours __str__(True)
@@ -702,11 +723,13 @@ def outcome_class(q, r):
   return "{}:ok".format(q["op"][0])
 
 
-def rq(g, tab, q):
+def rq(g, tab, q, budget=20):
   """run_query under a per-call time budget (bounded stand-in for
-  termination; a query that exceeds it is reported, C07 owns the cause)."""
+  termination; a query that exceeds it twice -- the second time alone on a
+  fresh replica with three times the budget, so that a stalled machine cannot
+  raise an alarm -- is reported; C07 owns the cause)."""
   try:
-    with guard(5):
+    with guard(budget):
       r = run_query(g, tab, q, getattr(tab, "idx", None))
   except HarnessTimeout:
     r = None
@@ -725,7 +748,7 @@ def check_state(item):
 def _check_state(item, res):
   run = StateRun(item, res)
   tier_quick = item.get("tier", "quick") == "quick"
-  chunk = 16 if tier_quick else 2
+  chunk = 16 if tier_quick else 4
   try:
     gm, tabm = run.fresh()
   except gfapy.Error as e:
@@ -745,7 +768,9 @@ def _check_state(item, res):
     res["nontrivial"].add(h(o0))
   if len(res["samples"]) < 1:
     res["samples"].append({"state": state_label(item), "queries": len(M),
-                           "kinds": len(kinds), "families": len(fams)})
+                           "kinds": len(kinds), "families": len(fams),
+                           "some_queries": [qpy(M[i][2]) for i in
+                                            range(0, len(M), max(1, len(M) // 8))]})
 
   def frame_violation(grp, q, oa, ob):
     eff = effect_of(oa, ob, item)
@@ -767,8 +792,10 @@ def _check_state(item, res):
     res["outcomes"].add(outcome_class(q, r1))
     rfwd[qi] = r1
     if r1 == ["timeout"] or r2 == ["timeout"]:
-      run.violation("timeout", grp, [q], "returns within 5 s", "no answer")
       g, tab = run.fresh()
+      if rq(g, tab, q, 60)[0] == ["timeout"]:
+        run.violation("timeout", grp, [q], "returns within 60 s", "no answer")
+        g, tab = run.fresh()
       pending = []
       continue
     if a0 != a1 or b0 != b1:
@@ -790,6 +817,8 @@ def _check_state(item, res):
           if ob != oa:
             frame_violation(M[pj][0], M[pj][2], oa, ob)
             located = True
+            if item.get("lazy") or run.nviol >= MAX_VIOL_PER_STATE:
+              return  # one root cause per lazily decoded document
             g, tab = run.fresh()
             oa = deep_obs(g)
         if not located:
@@ -850,16 +879,18 @@ def _check_state(item, res):
 
   def related(q1, q2):
     """thorough tier, q1 any kind, q2 a family representative: the families
-    of q1's own receiver line, the Gfa-level families, str() of every other
-    line (everything if q1 is a Gfa-level query)."""
+    of q1's own receiver line, the Gfa-level probes G_PROBES, str() of every
+    other line (every family if q1 is a Gfa-level query)."""
     l1, l2 = line_of(q1), line_of(q2)
-    return l1 is None or l2 is None or l1 == l2 or M[q2][2]["op"] == ["str"]
+    if l1 is None or l1 == l2 or M[q2][2]["op"] == ["str"]:
+      return True
+    return l2 is None and M[q2][1] in G_PROBES
 
   fset = set(fams)
   plan = [(fams, fams)]
   if not tier_quick:
     plan.append((kinds, fams))
-  need = sorted(set(x for a, b in plan for x in a + b))
+  need = sorted(set(x for a, b in plan for x in b))
   r0 = {}
   for qi in need:
     gq, tabq = run.fresh()
@@ -1122,5 +1153,11 @@ def replay(w, ctx):
             if v["witness"]["ops"] == w["ops"] and v["clause"] == w["clause"]]
   res = new_result()
   _check_state(w["state"], res)
-  return [v for v in res["violations"]
-          if v["clause"] == w["clause"] and v["witness"]["group"] == w["group"]]
+  out, seen = [], set()
+  for v in res["violations"]:
+    k = (v["clause"], json.dumps(v["key"], sort_keys=True))
+    if v["clause"] == w["clause"] and v["witness"]["group"] == w["group"] \
+        and k not in seen:
+      seen.add(k)
+      out.append(v)
+  return out
